@@ -17,7 +17,7 @@ import (
 
 func init() {
 	register("C19",
-		"CODEC: for the six GBN packet types and the mailbox MsgData control message the byte layout the writer emits (every success path of Serialize: constant bytes, field bytes, bool encodings, big-endian length prefixes, payload) and the layout the reader consumes (per returned message: tag test, length guard, per-field source expression over the input) are extracted from the SSA and must agree: same tag constant, every field read at the offset where it is written, bool decoding inverts the writer's two constants, the length guard equals the fixed header size, the payload is the rest / the length-prefixed range, all Message implementations covered both ways and tags pairwise distinct. Agreement implies decode(encode(v)) == v for all field values and that encode(decode(b)) decodes to the same value again (bools are canonicalised, trailing bytes ignored). Not decided: behaviour of bytes.Buffer / encoding/binary themselves.",
+		"CODEC: for the six GBN packet types and the mailbox MsgData control message the byte layout the writer emits (every success path of Serialize: constant bytes, field bytes, bool encodings, big-endian length prefixes, payload) and the layout the reader consumes (per returned message: tag test, length guard, per-field source expression over the input) are extracted from the SSA and must agree: same tag constant, every field read at the offset where it is written, bool decoding inverts the writer's two constants, the length guard equals the fixed header size, the payload is the rest / the length-prefixed range, all Message implementations covered both ways and tags pairwise distinct; every return of the two readers depends only on tag tests and 'input too short' guards (the reader refuses nothing the writer can emit and has no value-dependent branches). Agreement implies decode(encode(v)) == v for all field values and that encode(decode(b)) decodes to the same value again (bools are canonicalised, trailing bytes ignored). Not decided: behaviour of bytes.Buffer / encoding/binary themselves.",
 		[]string{"bytes.Buffer.Write/WriteByte append exactly their argument and do not fail; binary.BigEndian.PutUint32/Uint32 are inverse on 4 bytes"},
 		runC19)
 }
@@ -716,6 +716,10 @@ func runC19(c *Checker) {
 			c.fail("CODEC", "reader|gbn."+name, rc.Pos, "Deserialize returns a type that is not a Message implementation with a Serialize method")
 		}
 	}
+	ruleCodecRejects(c, deser, ssa.Value(deser.Params[0]), "gbn.Deserialize")
+	if des := w.Func("(*mailbox.MsgData).Deserialize"); des != nil {
+		ruleCodecRejects(c, des, ssa.Value(des.Params[1]), "mailbox.MsgData.Deserialize")
+	}
 	// default / short input: all other returns carry a non-nil error (type-level: result 0 nil)
 	c.floor("CODEC", 6*3)
 
@@ -966,4 +970,140 @@ func compareMsgData(c *Checker, rg *Ranger) {
 			}
 		}
 	}
+}
+
+// ruleCodecRejects: the reader accepts everything the writer can emit. Every return of a
+// Deserialize function may depend only on (1) tests of the tag byte b[0] against constants
+// and (2) comparisons of len(b) with a constant or with constant + announced length; a
+// rejecting return must be decided by "input too short" or by the tag. Any other condition
+// (a bound on a field value, on the announced length, on the input size from above) makes
+// some serialisable message undecodable or decodable differently.
+func ruleCodecRejects(c *Checker, fn *ssa.Function, b ssa.Value, label string) {
+	w := c.w
+	isLenB := func(v ssa.Value) bool {
+		call, ok := v.(*ssa.Call)
+		if !ok {
+			return false
+		}
+		bi, ok := call.Call.Value.(*ssa.Builtin)
+		return ok && bi.Name() == "len" && len(call.Call.Args) == 1 && call.Call.Args[0] == b
+	}
+	isBound := func(v ssa.Value) bool {
+		if _, ok := intConst(v); ok {
+			return true
+		}
+		if add, ok := v.(*ssa.BinOp); ok && add.Op == token.ADD {
+			for _, pr := range [][2]ssa.Value{{add.X, add.Y}, {add.Y, add.X}} {
+				if _, ok := intConst(pr[0]); !ok {
+					continue
+				}
+				if _, _, ok := uintOfInput(pr[1], b); ok {
+					return true
+				}
+			}
+		}
+		return false
+	}
+	// classify: "tag", "short" (holds when the input is too short), "long-enough", or ""
+	classify := func(f Fact) string {
+		bo, ok := f.Cond.(*ssa.BinOp)
+		if !ok {
+			return ""
+		}
+		if k, ok := inputByteAt(bo.X, b); ok && k == 0 && (bo.Op == token.EQL || bo.Op == token.NEQ) {
+			if _, ok := intConst(bo.Y); ok {
+				return "tag"
+			}
+		}
+		if k, ok := inputByteAt(bo.Y, b); ok && k == 0 && (bo.Op == token.EQL || bo.Op == token.NEQ) {
+			if _, ok := intConst(bo.X); ok {
+				return "tag"
+			}
+		}
+		op, val := bo.Op, f.Val
+		var lenLeft bool
+		switch {
+		case isLenB(bo.X) && isBound(bo.Y):
+			lenLeft = true
+		case isLenB(bo.Y) && isBound(bo.X):
+			lenLeft = false
+		default:
+			return ""
+		}
+		if !lenLeft {
+			switch op {
+			case token.LSS:
+				op = token.GTR
+			case token.LEQ:
+				op = token.GEQ
+			case token.GTR:
+				op = token.LSS
+			case token.GEQ:
+				op = token.LEQ
+			}
+		}
+		// "short" when the established relation bounds len(b) from above
+		switch op {
+		case token.LSS, token.LEQ:
+			if val {
+				return "short"
+			}
+			return "long-enough"
+		case token.GTR, token.GEQ:
+			if val {
+				return "long-enough"
+			}
+			return "short"
+		case token.EQL:
+			if k, ok := intConst(bo.Y); ok && k == 0 && lenLeft {
+				if val {
+					return "short"
+				}
+				return "long-enough"
+			}
+		case token.NEQ:
+			if k, ok := intConst(bo.Y); ok && k == 0 && lenLeft {
+				if val {
+					return "long-enough"
+				}
+				return "short"
+			}
+		}
+		return ""
+	}
+	n := 0
+	allInstrs(fn, func(in ssa.Instruction) {
+		ret, ok := in.(*ssa.Return)
+		if !ok || len(ret.Results) == 0 {
+			return
+		}
+		n++
+		isErr := !isNilConst(ret.Results[len(ret.Results)-1])
+		facts := factsAt(ret.Block())
+		kind := map[bool]string{true: "reject", false: "accept"}[isErr]
+		key := fmt.Sprintf("%s|%s-%d depends only on tag and input length", label, kind, n)
+		bad := ""
+		for _, f := range facts {
+			if classify(f) == "" {
+				bad = "depends on " + w.canonFB(f.Cond) + fmt.Sprintf(" (=%v)", f.Val)
+				break
+			}
+		}
+		if bad == "" && isErr {
+			if len(facts) == 0 {
+				bad = "is unconditional"
+			} else if k := classify(facts[0]); k != "short" && k != "tag" {
+				bad = "is decided by " + w.canonFB(facts[0].Cond) + fmt.Sprintf(" (=%v)", facts[0].Val) + ", which is neither 'input too short' nor a tag test"
+			}
+		}
+		if bad == "" && !isErr {
+			for _, f := range facts {
+				if classify(f) == "short" {
+					bad = "is taken for an input that is too short: " + w.canonFB(f.Cond)
+				}
+			}
+		}
+		c.decide(bad == "", "CODEC", key, instrPos(ret), "decided by tag tests and 'input too short' guards only",
+			"this "+kind+" return of the reader "+bad+": the reader's accepted language differs from what the writer emits (a serialisable message is refused or read differently)")
+	})
 }
